@@ -13,20 +13,29 @@ use crate::{Decl, Import, Index, Item, Module, Obj, Prop, Ty};
 struct Ctx<'a> {
     comments: &'a SingleThreadedComments,
     attached_blocks: usize,
+    base: u32,
 }
 
 impl Ctx<'_> {
     fn docs_at(&mut self, pos: BytePos) -> Vec<String> {
+        self.docs_with_start(pos).0
+    }
+
+    fn docs_with_start(&mut self, pos: BytePos) -> (Vec<String>, Option<usize>) {
         let mut out = vec![];
+        let mut start = None;
         if let Some(cs) = self.comments.get_leading(pos) {
             for c in cs {
                 if c.kind == CommentKind::Block {
+                    if start.is_none() {
+                        start = Some((c.span.lo.0 - self.base) as usize);
+                    }
                     out.push(c.text.to_string());
                     self.attached_blocks += 1;
                 }
             }
         }
-        out
+        (out, start)
     }
 }
 
@@ -53,6 +62,7 @@ pub fn parse_module(src: &str) -> Result<Module, String> {
     let mut ctx = Ctx {
         comments: &comments,
         attached_blocks: 0,
+        base: fm.start_pos.0,
     };
     let mut items = vec![];
     for it in &module.body {
@@ -122,14 +132,20 @@ fn conv_item(it: &ast::ModuleItem, ctx: &mut Ctx) -> Item {
         }
         I::ModuleDecl(M::ExportDecl(e)) => match &e.decl {
             D::TsTypeAlias(a) => {
-                let docs = ctx.docs_at(e.span.lo);
-                Item::Alias(conv_alias(a, true, docs, ctx))
+                let (docs, ds) = ctx.docs_with_start(e.span.lo);
+                let mut d = conv_alias(a, true, docs, ctx);
+                d.span = ((e.span.lo.0 - ctx.base) as usize, (e.span.hi.0 - ctx.base) as usize);
+                d.doc_start = ds;
+                Item::Alias(d)
             }
             other => Item::Other(format!("export-{}", decl_kind(other))),
         },
         I::Stmt(Stmt::Decl(D::TsTypeAlias(a))) => {
-            let docs = ctx.docs_at(a.span.lo);
-            Item::Alias(conv_alias(a, false, docs, ctx))
+            let (docs, ds) = ctx.docs_with_start(a.span.lo);
+            let mut d = conv_alias(a, false, docs, ctx);
+            d.span = ((a.span.lo.0 - ctx.base) as usize, (a.span.hi.0 - ctx.base) as usize);
+            d.doc_start = ds;
+            Item::Alias(d)
         }
         I::Stmt(Stmt::Decl(d)) => Item::Other(decl_kind(d).to_string()),
         I::Stmt(Stmt::Empty(_)) => Item::Other("empty-statement".into()),
@@ -175,6 +191,8 @@ fn conv_alias(a: &ast::TsTypeAliasDecl, exported: bool, docs: Vec<String>, ctx: 
         body: conv_ty(&a.type_ann, ctx),
         exported,
         docs,
+        span: (0, 0),
+        doc_start: None,
     }
 }
 
